@@ -256,6 +256,11 @@ def b_single(value):
     return {'got': value}
 
 
+def b_kwonly(tok, *, flag=False, level=1):
+    """Keyword-only parameters: they can be given by name only; by position only ``tok`` binds."""
+    return [tok, flag, level]
+
+
 def b_explode(tok):
     """Never reached: the validator attached to this method fails with an ordinary exception (not a ValidationError)."""
     return tok
@@ -277,7 +282,7 @@ BODIES: Dict[str, Callable[..., Any]] = {
     'echo': b_echo, 'add': b_add, 'none': b_none, 'pair': b_pair,
     'fail_proto': b_fail_proto, 'fail_exc': b_fail_exc, 'slow': b_slow, 'op_ab': b_op_ab, 'op_ba': b_op_ba, 'typed': b_typed,
     'typed_default': b_typed_default, 'vecho': b_vecho, 'fail_typed': b_fail_typed, 'mixed_keys': b_mixed_keys,
-    'single': b_single, 'explode': b_explode,
+    'single': b_single, 'explode': b_explode, 'kwonly': b_kwonly,
 }
 SIGNATURES: Dict[str, inspect.Signature] = {name: inspect.signature(fn) for name, fn in BODIES.items()}
 
